@@ -9,4 +9,5 @@ def load(pid):
     if not os.path.exists(paths.FINDINGS):
         return []
     data = json.load(open(paths.FINDINGS))
-    return [f for f in data.get("findings", []) if f["property"] == pid]
+    return [f for f in data.get("findings", [])
+            if f.get("property") == pid or pid in f.get("properties", [])]
